@@ -390,6 +390,7 @@ def recomputeOne (env : Env) (fuel n : Nat) : M (Option Nat) := do
   | some (.map f args) =>
     let vals ← args.mapM fun a => valueUnwrap env a "node:recompute_one:child-value"
     if f < fnZip then
+      tick
       runEffects env fuel (env.fnEff f vals) ((vals.headD .unit).toInt)
       let v := env.fn f vals
       logEv (.inv s!"f{f}" n vals v.render)
@@ -407,12 +408,14 @@ def recomputeOne (env : Env) (fuel n : Nat) : M (Option Nat) := do
     let x ← valueUnwrap env i "node:recompute_one:child-value"
     let old := nd.value
     modNode n fun y => { y with value := none }
+    tick
     let (σ', new, did) := env.withOld g nd.oldState old x
     logEv (.inv s!"g{g}" n ((match old with | some o => [o] | none => []) ++ [x]) s!"{new.render},{did}")
     modNode n fun y => { y with value := some new, oldState := σ' }
     maybeChangeValueManual env fuel n none did true
   | some (.fold f init cs) =>
     let vals ← cs.mapM fun a => valueUnwrap env a "node:recompute_one:child-value"
+    tick
     let v := vals.foldl (env.foldStep f) init
     logEv (.inv s!"fold{f}" n vals v.render)
     maybeChangeValue env fuel n v
@@ -423,6 +426,7 @@ def recomputeOne (env : Env) (fuel n : Nat) : M (Option Nat) := do
     let lhsVal ← valueUnwrap env br.lhs "node:recompute_one:child-value"
     let oldScope := (← get).currentScope
     modify fun s => { s with currentScope := .bind b }
+    tick
     let t := env.body br.body lhsVal
     logEv (.inv s!"b{br.body}" n [lhsVal] "")
     let rhs ← elabTemplate t lhsVal
@@ -467,6 +471,7 @@ def recomputeOne (env : Env) (fuel n : Nat) : M (Option Nat) := do
         match edge.cb with
         | some _ => er.slots.lookup edge.dep
         | none => none
+      tick
       let v := env.expertFn er.f depVals slotVals
       logEv (.inv s!"x{er.f}" n [] v.render)
       maybeChangeValue env fuel n v
@@ -557,6 +562,7 @@ def runAll (env : Env) (fuel : Nat) (o n : Nat) (nu : NodeUpdate) (now : Int) : 
             | .necessary => do pure (Update.initialised (← valueUnwrap env n "node_update:value-unwrap"))
             | .invalidated => pure Update.invalidated
             | .unnecessary => panic "public:subscription-got-unnecessary"
+          tick
           logEv (.notif h.token upd)
           runEffects env fuel (env.handler h.hid upd)
 
@@ -607,6 +613,24 @@ def stabilise (env : Env) (fuel : Nat) : M Unit := do
   unlinkDisallowedObservers fuel
   drainHeap env fuel
   stabiliseEnd env fuel
+
+/-- `State::set_max_height_allowed` (repaired D10: `N + 1` buckets in both heaps) -/
+def setMaxHeightAllowed (newMax : Nat) : M Unit := do
+  let s ← get
+  if s.status == .stabilising then panic "state:set_max_height_allowed:during-stabilisation"
+  -- adjust-heights heap
+  if (newMax : Int) < s.maxHeightSeen then panic "adjust_heights_heap:set_max_height_allowed:below-max-seen"
+  dassert (s.ahh.length == 0) "adjust_heights_heap:set_max_height_allowed:empty"
+  let resize (q : Array (List Nat)) : Array (List Nat) :=
+    if q.size ≥ newMax + 1 then q.extract 0 (newMax + 1)
+    else q ++ Array.replicate (newMax + 1 - q.size) []
+  modify fun s => { s with ahh := { s.ahh with queues := resize s.ahh.queues, lowerBound := (newMax : Int) + 1 } }
+  -- recompute heap
+  let s ← get
+  dassert (((s.rch.queues.toList.drop (newMax + 1)).all (·.isEmpty))) "recompute_heap:set_max_height_allowed:dropped-buckets-empty"
+  modify fun s =>
+    let q := resize s.rch.queues
+    { s with rch := { s.rch with queues := q, lowerBound := min s.rch.lowerBound ((q.size : Int) + 1) } }
 
 def State.isStable (s : State) : Bool :=
   s.rch.length == 0 && s.deadVars.isEmpty && s.newObservers.isEmpty
